@@ -80,6 +80,31 @@ def session_tail(ctx, sfw, rng, base, dbs, variants, origins, thorough):
         sigs = [{"id": s["id"], "fn": "extra:" + s["name"][len("idx2_"):], "hash": s["topology_hash"]} for s in doc["indexed"]]
         evs.append({"ev": "index", "db": be, "backend": be, "sigs": sigs})
         xorigins = sorted({s["fn"] for s in sigs})
+    # a bulk package that takes the JSON database well past 1000 signatures (the import batch size of the
+    # embedded store): call-free functions with pairwise different topology hashes
+    bulk = os.path.join(base, "bulk")
+    nb = 1300
+    src = ["package pk\n\n"]
+    for i in range(nb):
+        pc, j = 1 + i % 4, i // 4
+        nbr, nst = j % 6, j // 6
+        params = ", ".join("a%d" % k for k in range(pc)) + " int"
+        body = ["\tx := a0\n"]
+        for k in range(nbr):
+            body.append("\tif a%d > %d {\n\t\tx++\n\t}\n" % (k % pc, k + 1))
+        for k in range(nst):
+            body.append("\tx += a%d\n" % (k % pc))
+        src.append("func K%04d(%s) int {\n%s\treturn x\n}\n\n" % (i, params, "".join(body)))
+    gogen.write_module(os.path.join(bulk, "pk"), "pk", {"k.go": "".join(src)}, module="example.com/c05/bulk")
+    rc, out, err = run(sfw, ["index", "--name", "idx3", "--severity", "LOW", "--category", "bulk", "--db", dbs["json"], os.path.join(bulk, "pk")], bulk)
+    if rc != 0:
+        raise vlib.Inconclusive("bulk sfw index failed: %s" % (out + err)[-800:])
+    doc = json.loads(out[out.index("{"):])
+    bsigs = [{"id": s_["id"], "fn": "bulk:" + s_["name"][len("idx3_"):], "hash": s_["topology_hash"]} for s_ in doc["indexed"]]
+    evs.append({"ev": "index", "db": "json", "backend": "json", "sigs": bsigs})
+    borigins = sorted(s_["fn"] for s_ in bsigs if s_["fn"] != "bulk:init")
+    if len({s_["hash"] for s_ in bsigs}) < nb:
+        raise vlib.Inconclusive("bulk package: topology hashes are not pairwise different (generator bug)")
     mig = os.path.join(ctx.scratch, "migrated.db")
     rc, out, err = run(sfw, ["migrate", "--from", dbs["json"], "--to", mig], base)
     if rc != 0:
@@ -98,6 +123,7 @@ def session_tail(ctx, sfw, rng, base, dbs, variants, origins, thorough):
                 evs.append(scan_event(ctx, sfw, be, dbname, db, mode, th, vname, d, fmap, origins))
     for be, dbname, db in (("pebbledb", "mig", mig), ("json", "json", dbs["json"])):
         evs.append(scan_event(ctx, sfw, be, dbname, db, "full", "1.0", "extra", extra, {}, xorigins))
+        evs.append(scan_event(ctx, sfw, be, dbname, db, "exact", "0.75", "bulk", bulk, {}, borigins))
     return evs
 
 
